@@ -9,6 +9,8 @@ V = os.path.dirname(os.path.dirname(os.path.abspath(__file__)))
 args = sys.argv[1:]
 tests = "--tests" in args
 if tests: args.remove("--tests")
+clean = "--expect-clean" in args	# benign change: every named check must exit 0
+if clean: args.remove("--expect-clean")
 tier = "quick"
 if "--tier" in args:
     i = args.index("--tier"); tier = args[i + 1]; del args[i:i + 2]
@@ -35,9 +37,12 @@ try:
         lines = [l for l in r.stdout.splitlines() if l.startswith(("VIOLATION", "  class=", "INFRA", "KNOWN", p + " "))]
         print("check %s %s -> exit %d in %.0fs" % (p, tier, r.returncode, time.time() - t0))
         for l in lines[:8]: print("   ", l[:300])
-        if r.returncode != 1: missed.append(p)
+        if (r.returncode != 0) if clean else (r.returncode != 1): missed.append(p)
+        if clean and r.returncode != 0:
+            print(r.stdout[-1500:])
     rc = 1 if missed else 0
-    print("RESULT", os.path.basename(os.path.dirname(patch)) or patch, "caught by all named checks" if not missed else "MISSED by " + ",".join(missed))
+    if clean: print("RESULT", os.path.basename(patch), "no alarm from any named check" if not missed else "ALARM (or failure) from " + ",".join(missed))
+    else: print("RESULT", os.path.basename(os.path.dirname(patch)) or patch, "caught by all named checks" if not missed else "MISSED by " + ",".join(missed))
 finally:
     subprocess.run([os.path.join(V, "tools/rmworktree.sh"), wt])
     shutil.rmtree(bd, ignore_errors=True)
